@@ -1,6 +1,7 @@
 import StorageModel.C15.General
 import StorageModel.C15.Config
 import StorageModel.C15.Cursor
+import StorageModel.C15.Paging
 import StorageModel.C15.Order
 import StorageModel.C15.Extended
 import StorageModel.C15.Layout
@@ -367,6 +368,62 @@ example : (ScanCur.next sampleMixed .A2 .tt (ScanCur.seek sampleMixed .A2 .tt (i
     = some 3 := by decide
 example : queryWithCursor sampleMixed .A1 .tt (rolesIndexIds sampleMixed 1) = [4] ∧
     queryWithCursor sampleMixed .A2 .tt (rolesIndexIds sampleMixed 1) = [3, 4] := by decide
+
+/-! ### paged walks: a compiled query with `skip` / `limit` handed to `IterateIds` / `IterateValidIds` / `QueryIds`
+
+`newFilteredCursor` calls `setPaging` when the filter is an `ast.Query`; `uniqueIndexScanner.Next` then
+does its offset / collected accounting (`pscanNext`, `PScanCur`; C15/Paging.lean).  The specification
+is the budgeted list cursor `PListCur` over the ids the store OWNS: `skip` is used up by owned rows
+only (rows without child data never count, through the plain child store), `limit` counts the rows
+handed out, both budgets survive a `Seek`. -/
+
+/-- **paged `IterateIds` through any store, any population, any page, any script of `Next` / `Seek`**:
+    what the caller sees is what the budgeted list cursor over the owned ids shows.  (`IterateValidIds`
+    of a store that is not extended returns the same scanner.) -/
+theorem paged_iterate_ids_cursor_is_paged_list_cursor (st : St) (s : Sel) (f : Filter) (pg : Page)
+    (script : List Step) :
+    (iterateIdsPaged st s f pg).trace st s f pg script =
+      (PListCur.start pg (ownedIds st.ents s false f)).trace pg script :=
+  iterateIdsPaged_trace st s f pg script
+
+/-- **a paged walk (Next only) enumerates the page of the owned ids, and so does `QueryIds`**: the
+    rows `skip` leaves out are rows the store owns, the walk through a plain child store delivers
+    `(owned.drop skip).take limit` — the list `QueryIds` returns for the same query, whose count is the
+    number of all owned matching rows. -/
+theorem paged_walk_is_page_of_owned_ids (st : St) (s : Sel) (f : Filter) (pg : Page) (n : Nat) :
+    (iterateIdsPaged st s f pg).trace st s f pg (List.replicate n .next) =
+      (ListCur.start (pg.of (ownedIds st.ents s false f))).trace (List.replicate n .next) ∧
+    queryIdsPaged st s f pg = (pg.of (ownedIds st.ents s false f), (ownedIds st.ents s false f).length) := by
+  refine ⟨?_, queryIdsPaged_spec st s f pg⟩
+  rw [iterateIdsPaged_trace]
+  exact PListCur.trace_nexts pg _ n
+
+/-- … and no page, no script makes a paged cursor rest on an id the store does not own -/
+theorem paged_cursor_rests_only_on_owned_ids (st : St) (s : Sel) (f : Filter) (pg : Page)
+    (script : List Step) (id : Id)
+    (h : some id ∈ (iterateIdsPaged st s f pg).trace st s f pg script) :
+    ∃ e, mget st.ents id = some e ∧ ownsEnt s false e = true ∧ f.eval e = true := by
+  rw [iterateIdsPaged_trace] at h
+  exact (mem_ownedIds _ _ _ _ _).1 (PListCur.start_trace_mem pg _ script id h)
+
+/-- the page spelled out -/
+example (l : List Id) (k n : Nat) : (Page.mk k (some n)).of l = (l.drop k).take n ∧ (Page.mk k none).of l = l.drop k :=
+  ⟨rfl, rfl⟩
+
+/-- non-vacuity (`sampleMixed` extended by A1 data on 2 and 6: plain parents 3 and — for A1 — 1, 5 lie before and
+    between the A1 entities 2, 4, 6): `skip 1 limit 10` through A1 starts at the second A1 entity; if the rows
+    used up by `skip` were not restricted to A1's entities (seeded C15-17) it would start at 2 -/
+def samplePaged : St :=
+  run Config.current St.init [[.create .A2 1 ⟨1, [], none⟩, .create .A1 2 ⟨2, [], some 2⟩, .create .A 3 ⟨3, [1], none⟩,
+    .create .A1 4 ⟨4, [1], some 1⟩, .create .A2 5 ⟨5, [], some 2⟩, .create .A1 6 ⟨6, [], some 3⟩]]
+
+example : (iterateIdsPaged samplePaged .A1 .tt ⟨1, some 10⟩).trace samplePaged .A1 .tt ⟨1, some 10⟩ [.next, .next] =
+    [some 4, some 6, none] ∧
+    queryIdsPaged samplePaged .A1 .tt ⟨1, some 10⟩ = ([4, 6], 3) ∧
+    (iterateIdsPaged samplePaged .A2 .tt ⟨2, some 2⟩).trace samplePaged .A2 .tt ⟨2, some 2⟩ [.next, .next] =
+    [some 3, some 4, none] ∧
+    (iterateIdsPaged samplePaged .A1 .tt ⟨1, some 2⟩).trace samplePaged .A1 .tt ⟨1, some 2⟩ [.seek 1, .seek 1, .seek 1] =
+    [some 4, some 2, none, none] := by decide
 
 /-! ### DeleteWhere through any store -/
 
@@ -780,6 +837,9 @@ end StorageModel.Properties.C15
 #print axioms StorageModel.Properties.C15.iterate_valid_ids_cursor_is_list_cursor
 #print axioms StorageModel.Properties.C15.cursor_rests_only_on_owned_ids
 #print axioms StorageModel.Properties.C15.query_lists_are_owned_ids
+#print axioms StorageModel.Properties.C15.paged_iterate_ids_cursor_is_paged_list_cursor
+#print axioms StorageModel.Properties.C15.paged_walk_is_page_of_owned_ids
+#print axioms StorageModel.Properties.C15.paged_cursor_rests_only_on_owned_ids
 #print axioms StorageModel.Properties.C15.query_with_cursor_only_owned_rows
 #print axioms StorageModel.Properties.C15.roles_index_cursor_enumerates_holders
 #print axioms StorageModel.Properties.C15.child_store_registration_order_irrelevant
